@@ -3,7 +3,7 @@
 //! classes, and big-integer reference semantics. Every body assigns its inputs
 //! as witnesses, runs the operation and returns the list of values to expose
 //! publicly (inputs first, then outputs).
-use ff::{Field, PrimeField};
+use ff::Field;
 use midnight_circuits::{
     instructions::*,
     types::{AssignedBit, AssignedByte, AssignedNative},
@@ -35,19 +35,25 @@ pub struct OpCase {
     pub p: Vec<u64>,
     /// static big parameters (bounds, divisors, constants) as hex
     pub big: Vec<String>,
-    /// witness inputs
+    /// witness inputs (native field elements)
     pub ins: Vec<Fe>,
+    /// witness inputs that do not fit the native field (hex big integers)
+    #[serde(default)]
+    pub bins: Vec<String>,
     /// standard-library configuration
     pub cols: u8,
     pub mbl: u8,
 }
 
 impl OpCase {
+    pub fn bin(&self, i: usize) -> BigUint {
+        BigUint::parse_bytes(self.bins[i].as_bytes(), 16).unwrap_or_default()
+    }
     pub fn bigp(&self, i: usize) -> BigUint {
         BigUint::parse_bytes(self.big[i].as_bytes(), 16).unwrap_or_default()
     }
     pub fn static_key(&self) -> String {
-        format!("{}|{:?}|{:?}|{}|{}|{}", self.op, self.p, self.big, self.ins.len(), self.cols, self.mbl)
+        format!("{}|{:?}|{:?}|{}|{}|{}|{}", self.op, self.p, self.big, self.ins.len(), self.bins.len(), self.cols, self.mbl)
     }
 }
 
@@ -315,7 +321,7 @@ pub fn gen_native_case(rng: &mut Prng, op: &str) -> OpCase {
         }
         _ => panic!("unknown op {op}"),
     }
-    OpCase { op: op.to_string(), p, big, ins: ins.into_iter().map(Fe).collect(), cols, mbl }
+    OpCase { op: op.to_string(), p, big, ins: ins.into_iter().map(Fe).collect(), bins: vec![], cols, mbl }
 }
 
 // ------------------------------------------------------------------ body
@@ -762,7 +768,7 @@ pub fn native_holds(c: &OpCase, ins: &[Fq], outs: &[Fq]) -> Result<(), String> {
     }
 }
 
-// ------------------------------------------------------------------ relation wrapper
+// ------------------------------------------------------------------ relation wrapper and family dispatch
 
 /// A standard-library relation running one operation case.
 #[derive(Clone, Debug)]
@@ -773,21 +779,19 @@ pub struct OpRel {
 impl Relation for OpRel {
     /// the raw public inputs (only used by the real prover / verifier)
     type Instance = Vec<F>;
-    type Witness = Vec<F>;
+    type Witness = (Vec<F>, Vec<BigUint>);
     fn format_instance(i: &Vec<F>) -> Result<Vec<F>, Error> {
         Ok(i.clone())
     }
-    fn circuit(&self, s: &ZkStdLib, l: &mut impl Layouter<F>, _i: Value<Vec<F>>, w: Value<Vec<F>>) -> Result<(), Error> {
+    fn circuit(&self, s: &ZkStdLib, l: &mut impl Layouter<F>, _i: Value<Vec<F>>, w: Value<(Vec<F>, Vec<BigUint>)>) -> Result<(), Error> {
         let n = self.case.ins.len();
-        let w: Vec<Value<F>> = (0..n).map(|i| w.as_ref().map(|v| v[i])).collect();
-        let publics = crate::ops::body(&self.case, s, l, &w)?;
-        for p in &publics {
-            s.constrain_as_public_input(l, p)?;
-        }
-        Ok(())
+        let nb = self.case.bins.len();
+        let wn: Vec<Value<F>> = (0..n).map(|i| w.as_ref().map(|v| v.0[i])).collect();
+        let wb: Vec<Value<BigUint>> = (0..nb).map(|i| w.as_ref().map(|v| v.1[i].clone())).collect();
+        body(&self.case, s, l, &wn, &wb)
     }
     fn used_chips(&self) -> ZkStdLibArch {
-        crate::ops::arch(&self.case)
+        arch(&self.case)
     }
     fn write_relation<W: std::io::Write>(&self, _w: &mut W) -> std::io::Result<()> {
         Ok(())
@@ -797,37 +801,101 @@ impl Relation for OpRel {
     }
 }
 
+fn family(c: &OpCase) -> &str {
+    c.op.split('.').next().filter(|_| c.op.contains('.')).unwrap_or("native")
+}
+
+pub fn witness(c: &OpCase) -> (Vec<F>, Vec<BigUint>) {
+    (c.ins.iter().map(|x| x.0).collect(), (0..c.bins.len()).map(|i| c.bin(i)).collect())
+}
+
 pub fn arch(c: &OpCase) -> ZkStdLibArch {
-    ZkStdLibArch { nr_pow2range_cols: c.cols, ..ZkStdLibArch::default() }
+    match family(c) {
+        "ff" | "big" => crate::ops_ff::arch(c),
+        _ => ZkStdLibArch { nr_pow2range_cols: c.cols, ..ZkStdLibArch::default() },
+    }
 }
 
-pub fn body<L: Layouter<F>>(c: &OpCase, s: &ZkStdLib, l: &mut L, w: &[Value<F>]) -> Result<Vec<AN>, Error> {
-    native_body(c, s, l, w)
+/// Synthesises the operation and publishes inputs and outputs.
+pub fn body<L: Layouter<F>>(c: &OpCase, s: &ZkStdLib, l: &mut L, w: &[Value<F>], wb: &[Value<BigUint>]) -> Result<(), Error> {
+    match family(c) {
+        "ff" | "big" => crate::ops_ff::body(c, s, l, w, wb),
+        _ => {
+            for p in &native_body(c, s, l, w)? {
+                s.constrain_as_public_input(l, p)?;
+            }
+            Ok(())
+        }
+    }
 }
 
-pub fn holds(c: &OpCase, ins: &[Fq], outs: &[Fq]) -> Result<(), String> {
-    native_holds(c, ins, outs)
+pub enum Judgement {
+    /// inputs admissible and the published outputs satisfy the definition
+    Holds,
+    /// the published inputs are outside the operation's domain (or its
+    /// assertion is false): the circuit should have been unsatisfiable
+    Inadmissible,
+    Wrong(String),
+    /// the operation's definition holds on the residues, but a published
+    /// emulated-field representation is not the canonical one
+    NonCanonicalExposure(String),
 }
 
-/// `Some(true)`: satisfiable with the honest witness; `Some(false)`: must be unsatisfiable.
-pub fn admissible(c: &OpCase) -> bool {
-    let ins: Vec<Fq> = c.ins.iter().map(|x| x.0).collect();
-    native_eval(c, &ins).is_some()
+/// Judges the public values bound by an accepted execution.
+pub fn judge(c: &OpCase, publics: &[Fq]) -> Judgement {
+    match family(c) {
+        "ff" | "big" => match crate::ops_ff::check(c, publics) {
+            Ok(true) => match crate::ops_ff::take_noncanonical() {
+                Some(m) => Judgement::NonCanonicalExposure(m),
+                None => Judgement::Holds,
+            },
+            Ok(false) => Judgement::Inadmissible,
+            Err(e) => Judgement::Wrong(e),
+        },
+        _ => {
+            let n = c.ins.len().min(publics.len());
+            let (bi, bo) = publics.split_at(n);
+            if native_unspecified(c, bi) {
+                return Judgement::Holds;
+            }
+            match native_eval(c, bi) {
+                None => Judgement::Inadmissible,
+                Some(_) => match native_holds(c, bi, bo) {
+                    Ok(()) => Judgement::Holds,
+                    Err(e) => Judgement::Wrong(e),
+                },
+            }
+        }
+    }
 }
 
-#[allow(dead_code)]
-fn _unused(_: PhantomBound) {}
-struct PhantomBound;
-#[allow(dead_code)]
-fn _num_bits() -> u32 {
-    Fq::NUM_BITS
+/// Whether the declared (honest) inputs are inside the operation's domain.
+pub fn expected_admissible(c: &OpCase) -> bool {
+    match family(c) {
+        "ff" | "big" => crate::ops_ff::expected_admissible(c),
+        _ => {
+            let ins: Vec<Fq> = c.ins.iter().map(|x| x.0).collect();
+            native_eval(c, &ins).is_some()
+        }
+    }
+}
+
+fn native_unspecified(c: &OpCase, ins: &[Fq]) -> bool {
+    matches!(c.op.as_str(), "div_rem" | "rem") && c.p[0] == 1 && !ins.is_empty() && bi(&ins[0]) > c.bigp(1)
 }
 
 /// Every operation of the registry (all families).
-pub fn all_ops() -> Vec<&'static str> {
-    NATIVE_OPS.to_vec()
+pub fn all_ops() -> Vec<String> {
+    let mut v: Vec<String> = NATIVE_OPS.iter().map(|s| s.to_string()).collect();
+    v.extend(crate::ops_ff::ff_ops());
+    v.extend(crate::ops_ff::big_ops());
+    v
 }
 
 pub fn gen_case(rng: &mut Prng, op: &str) -> OpCase {
-    gen_native_case(rng, op)
+    if op.starts_with("ff.") || op.starts_with("big.") {
+        crate::ops_ff::gen_case(rng, op)
+    } else {
+        gen_native_case(rng, op)
+    }
 }
